@@ -15,8 +15,14 @@ def grab_item(path, header):
     return src[ls:find_block(src,i)]
 def grab_methods(path, impl_header, names, keep_all=False):
     src=open('/repo/src/'+path).read()
-    i=src.index(impl_header); e=find_block(src,i)
-    body=src[src.index('{',i)+1:e-1]
+    body=""
+    pos=0
+    while True:
+        i=src.find(impl_header,pos)
+        if i<0: break
+        e=find_block(src,i)
+        body+=src[src.index('{',i)+1:e-1]+"\n"
+        pos=e
     out=[]
     for n in names:
         m=re.search(r'^[ \t]*(pub(\([a-z]+\))? )?fn '+n+r'\b', body, re.M)
@@ -28,6 +34,6 @@ def grab_methods(path, impl_header, names, keep_all=False):
             out.append(body[j:semi+1])
         else:
             out.append(body[j:find_block(body,j)])
-    return impl_header+" {\n"+"\n\n".join(out)+"\n}\n"
+    return impl_header.rstrip().rstrip("{").rstrip()+" {\n"+"\n\n".join(out)+"\n}\n"
 if __name__=="__main__":
     pass
